@@ -11,7 +11,7 @@ META = dict(
 )
 
 TOL = '0x1p-20'
-PRE = gates.COQ_HEADER + 'From VF Require Import Sim.Ref Sim.Measure Gates.Channels.\nDefinition R (x : float) : FC := (x, 0).\n'
+PRE = gates.COQ_HEADER + 'From VF Require Import Sim.Ref Sim.Measure Gates.Channels Sim.SubspaceApply.\nDefinition R (x : float) : FC := (x, 0).\n'
 
 
 def mat_gate(u, shape):
@@ -127,6 +127,13 @@ def apply_stream(ctx, cirq, mods, checks, n):
             gterm, dims_l = g.coq(), list(g.shape)
         ctx.count('apply_unitary' + ('[subspace]' if sub else ''), [g.key(), pos, shape, subspaces], True,
                   sample=dict(gate=g.key(), axes=pos, tensor_shape=shape, subspaces=subspaces))
+        if sub:
+            # the same case through the subspace model of Sim/SubspaceApply.v, from the gate model itself (no embedding done in Python)
+            subs_l = '[' + '; '.join(gates.nlist(list(t)) for t in subspaces) + ']'
+            checks.append(('apply_unitary', f'fcl_close {TOL} (tab {gates.nlist(shape)} (sapply FOps (mat_of FOps {gates.nlist(list(g.shape))} (gate_model FOps {g.coq()})) '
+                                            f'{gates.nlist(pos)} {subs_l} (untab FOps {gates.nlist(shape)} {gates.fvec(target)}))) {gates.fvec(out)}',
+                           f'apply_unitary({g.fam} {g.key()[1]}) on axes {pos} of a tensor of shape {shape} (subspaces {subspaces}) differs from the gate acting on those levels (sapply)',
+                           dict(signature=f'apply:{g.fam}:subspace', gate=g.key(), axes=pos, shape=shape, subspaces=subspaces)))
         checks.append(('apply_unitary', f'fcl_close {TOL} (apply_tab FOps (gate_model FOps {gterm}) {gates.nlist(dims_l)} {gates.nlist(pos)} '
                                         f'{gates.nlist(shape)} {gates.fvec(target)}) {gates.fvec(out)}',
                        f'apply_unitary({g.fam} {g.key()[1]}) on axes {pos} of a tensor of shape {shape} (subspaces {subspaces}) differs from the matrix action',
